@@ -972,6 +972,14 @@ func (ex *Exec) evalCall(st *State, n *node, e *env) Val {
 		return term(sel(st.region("G!pushedat", arr("Int", "Int")), arg(0).T), tInt)
 	case "msgline":
 		return term(sel(st.region("G!msgline", arr("Int", "String")), arg(0).T), tString)
+	case "hasbits":
+		// hasbits(x, mask): (x & mask) == mask on 32-bit values
+		x, m := arg(0).T, arg(1).T
+		return term("(= (bvand ((_ int2bv 32) "+x+") ((_ int2bv 32) "+m+")) ((_ int2bv 32) "+m+"))", tBool)
+	case "filemode":
+		return term(sel(st.region("G!filemode", arr("Int", "Int")), arg(0).T), tInt)
+	case "writtenat":
+		return term(sel(st.region("G!writtenat", arr("Int", "Int")), arg(0).T), tInt)
 	case "rdgood":
 		return term(sel(st.region("G!rdgood", arr("Int", "Int")), arg(0).T), tInt)
 	case "dirname":
